@@ -80,7 +80,9 @@ class CompileMapper(StringifyMapper):
             result = "({}+{}){}".format(result, self(coeff, PREC_SUM),
                     stringify_exp(exp-next_exp))
 
-        if enclosing_prec > PREC_SUM and len(expr.data) > 1:
+        # A single term "(+c)*x**k" is a product: as an operand of ** / %
+        # it needs parentheses just like a sum of several terms does.
+        if enclosing_prec > PREC_SUM:
             return f"({result})"
         else:
             return result
